@@ -145,7 +145,8 @@ def logit_cases(draw, op):
         rows.append([float(np.float32(max(-1e4, min(1e4, v)))) for v in row])
     c = {"op": op, "x": rows, "dtype": draw(st.sampled_from(["float32", "float64"])),
          "g": [[draw(st.integers(-8, 8)) / 4.0 for _ in range(min(k, 6))] * (k // min(k, 6) + 1) for _ in range(n)],
-         "form": draw(st.sampled_from(["fn", "module"])), "transposed": draw(st.booleans())}
+         "form": draw(st.sampled_from(["fn", "module"])), "transposed": draw(st.booleans()),
+         "layout": draw(st.sampled_from(["C", "C", "F", "strided"]))}
     if op == "cross_entropy":
         c["labels"] = [draw(st.integers(0, k - 1)) for _ in range(n)]
         c["reduction"] = draw(st.sampled_from(["none", "sum", "mean"]))
@@ -169,7 +170,8 @@ def check_logits(c, rec):
     lsm = special.log_softmax(x64, axis=1)
     if op in ("softmax", "log_softmax"):
         transposed = c["transposed"]
-        data = x.T.copy() if transposed else x.copy()
+        from ..ops import _layout
+        data = _layout(x.T.copy() if transposed else x.copy(), c.get("layout", "C"))
         dim = 0 if transposed else draw_dim(c)
         t = Tensor(data, requires_grad=True)
         if c["form"] == "module":
@@ -195,7 +197,9 @@ def check_logits(c, rec):
         return
     # cross entropy
     labels = np.array(c["labels"])
-    t = Tensor(x.copy(), requires_grad=True)
+    from ..ops import _layout
+    t = Tensor(_layout(x.copy(), c.get("layout", "C")), requires_grad=True)
+    rec.tag("layout_" + c.get("layout", "C"))
     lab = Tensor(labels.astype(np.int64))
     if c["form"] == "module":
         out = nn.CrossEntropyLoss(reduction=c["reduction"])(t, lab)
